@@ -484,6 +484,9 @@ struct QuantCase {
     /// quantisations made before this one ON THE SAME THREAD (results not judged here): nothing they
     /// leave behind may influence this call
     before: Vec<QuantCase>,
+    /// quantisations made before this one on the same thread with THE SAME `Image` value
+    /// (k, dither, bg, how: 0 the same object, 1 a clone, 2 an identical crop of it)
+    before_same: Vec<(usize, bool, Option<RGBA>, u8)>,
 }
 
 impl QuantCase {
@@ -500,7 +503,8 @@ impl QuantCase {
                "layout": self.layout.map(|(a, b, c)| vec![a, b, c]),
                "crop": self.crop.map(|(a, b, c, d)| vec![a, b, c, d]), "k": self.k.to_string(), "dither": self.dither,
                "bg": self.bg.map(|b| rgba_hex(&[b])),
-               "before": self.before.iter().map(|c| c.to_json()).collect::<Vec<_>>()})
+               "before": self.before.iter().map(|c| c.to_json()).collect::<Vec<_>>(),
+               "before_same": self.before_same.iter().map(|(k, d, b, how)| json!([k.to_string(), d, b.map(|b| rgba_hex(&[b])), how])).collect::<Vec<_>>()})
     }
     fn from_json(v: &Value) -> Option<QuantCase> {
         let crop = v["crop"].as_array().map(|a| {
@@ -521,6 +525,9 @@ impl QuantCase {
             dither: v["dither"].as_bool()?,
             bg: v["bg"].as_str().map(|s| rgba_unhex(s)[0]),
             before: v["before"].as_array().map(|a| a.iter().filter_map(QuantCase::from_json).collect()).unwrap_or_default(),
+            before_same: v["before_same"].as_array().map(|a| a.iter().filter_map(|e| {
+                Some((e[0].as_str()?.parse().ok()?, e[1].as_bool()?, e[2].as_str().map(|s| rgba_unhex(s)[0]), e[3].as_u64()? as u8))
+            }).collect()).unwrap_or_default(),
         })
     }
     /// the `Image` (a view with this case's strides and crop), its size, and the origin of the crop
@@ -685,10 +692,21 @@ fn run_quant(out: &mut Out, case: &QuantCase, kind: &str) {
     }
     let before: Vec<(Image, usize, bool, Option<RGBA>)> =
         case.before.iter().map(|b| (b.image().0, b.k, b.dither, b.bg)).collect();
+    let before_same = case.before_same.clone();
     let res = watched(move || {
         // earlier calls on this very thread
         for (bi, bk, bd, bbg) in before.iter() {
             let _ = guarded(|| bi.quantize(*bk, *bd, *bbg).is_some());
+        }
+        // earlier calls with the very same image value
+        for (bk, bd, bbg, how) in before_same.iter() {
+            let im = match how {
+                0 => None,
+                1 => Some(img.clone()),
+                _ => Some(img.crop(.., ..)),
+            };
+            let im = im.as_ref().unwrap_or(&img);
+            let _ = guarded(|| im.quantize(*bk, *bd, *bbg).is_some());
         }
         img.quantize(k, dither, bg).map(|(pal, q)| {
             let prgb: Vec<Rgb> = pal.colors().iter().map(|c| c.to_rgb()).collect();
@@ -721,6 +739,9 @@ fn run_quant(out: &mut Out, case: &QuantCase, kind: &str) {
     }
     if !case.before.is_empty() {
         out.hist("quant:after-other-calls");
+    }
+    if !case.before_same.is_empty() {
+        out.hist("quant:after-calls-on-same-image");
     }
     // the distinct colours fit the request; whether the image is "small enough not to be subsampled" is
     // not decided by a constant here but, when a colour is missing, by probing the implementation
@@ -855,7 +876,7 @@ fn run_quant(out: &mut Out, case: &QuantCase, kind: &str) {
                 out.sample(json!({"h": h, "w": w, "k": k, "dither": dither, "distinct": distinct.len(), "palette": n}));
             }
             // the same picture through other Surface implementors (palette extraction only)
-            if case.before.is_empty() && !dither && h * w > 0 && k >= 1 && k < (1 << 40) {
+            if case.before.is_empty() && case.before_same.is_empty() && !dither && h * w > 0 && k >= 1 && k < (1 << 40) {
                 let junk = RGBA::new(1, 254, 3, 255);
                 let raw2 = rawpx.clone();
                 let alt = watched(move || other_implementors(h, w, &raw2, k, bg_eff, junk));
@@ -974,7 +995,7 @@ fn gen_quant(rng: &mut Rng, big: bool) -> (QuantCase, &'static str) {
         6 => ((d / 2).max(1) as usize, "k=distinct/2"),
         _ => ((d + rng.range(0, 20)) as usize, "k>=distinct"),
     };
-    let case = QuantCase { height: hh, width: ww, data, layout: None, crop, k, dither: rng.chance(1, 2), bg, before: vec![] };
+    let case = QuantCase { height: hh, width: ww, data, layout: None, crop, k, dither: rng.chance(1, 2), bg, before: vec![], before_same: vec![] };
     // the same picture through another storage layout (transposed, padded, strided), half of the time
     let lk = if rng.chance(1, 2) { 0 } else { 1 + rng.below(4) };
     (case.relayout(rng, lk), kind)
@@ -1008,7 +1029,7 @@ fn gen_band(rng: &mut Rng, ps: usize, area: Option<usize>) -> QuantCase {
         let j = rng.below((hh * ww) as u64) as usize;
         data[j] = *c;
     }
-    QuantCase { height: hh, width: ww, data, layout: None, crop: None, k: ps, dither: rng.chance(1, 2), bg: None, before: vec![] }
+    QuantCase { height: hh, width: ww, data, layout: None, crop: None, k: ps, dither: rng.chance(1, 2), bg: None, before: vec![], before_same: vec![] }
 }
 
 fn opaque(cs: &[Rgb]) -> Vec<RGBA> {
@@ -1072,7 +1093,7 @@ fn main() {
         data.extend(opaque(&nine[..3]));
         for dither in [false, true] {
             for k in [1usize, 8, 9, 12] {
-                run_quant(&mut out, &QuantCase { height: 3, width: 4, data: data.clone(), layout: None, crop: None, k, dither, bg: None, before: vec![] }, "corner");
+                run_quant(&mut out, &QuantCase { height: 3, width: 4, data: data.clone(), layout: None, crop: None, k, dither, bg: None, before: vec![], before_same: vec![] }, "corner");
             }
         }
         // exact fit: n distinct colours, k = n (and n ± 1), both dither settings; also through the octree API
@@ -1083,20 +1104,20 @@ fn main() {
             let (hh, ww) = (3usize, n / 2);
             for dither in [false, true] {
                 for k in [n, n + 1, n.saturating_sub(1).max(1)] {
-                    run_quant(&mut out, &QuantCase { height: hh, width: ww, data: data.clone(), layout: None, crop: None, k, dither, bg: None, before: vec![] }, "exact-fit");
+                    run_quant(&mut out, &QuantCase { height: hh, width: ww, data: data.clone(), layout: None, crop: None, k, dither, bg: None, before: vec![], before_same: vec![] }, "exact-fit");
                 }
             }
             run_oct(&mut out, &opaque(&cols), &n.to_string(), "exact-fit");
             run_oct(&mut out, &opaque(&cols), &format!("{},{}", n + 5, n), "exact-fit");
         }
         // one colour, duplicates only
-        run_quant(&mut out, &QuantCase { height: 5, width: 3, data: opaque(&[[9, 8, 7]; 15]), layout: None, crop: None, k: 1, dither: true, bg: None, before: vec![] }, "corner");
-        run_quant(&mut out, &QuantCase { height: 1, width: 1, data: opaque(&[[255, 255, 255]]), layout: None, crop: None, k: 300, dither: false, bg: None, before: vec![] }, "corner");
+        run_quant(&mut out, &QuantCase { height: 5, width: 3, data: opaque(&[[9, 8, 7]; 15]), layout: None, crop: None, k: 1, dither: true, bg: None, before: vec![], before_same: vec![] }, "corner");
+        run_quant(&mut out, &QuantCase { height: 1, width: 1, data: opaque(&[[255, 255, 255]]), layout: None, crop: None, k: 300, dither: false, bg: None, before: vec![], before_same: vec![] }, "corner");
         // transparent pixels over several backgrounds
         let tr: Vec<RGBA> = (0..12u8).map(|i| RGBA::new(i * 20, 255 - i * 20, 7 * i, if i % 3 == 0 { 255 } else { i * 21 })).collect();
         for bg in [None, Some(RGBA::new(255, 255, 255, 255)), Some(RGBA::new(10, 200, 90, 255)), Some(RGBA::new(10, 200, 90, 100))] {
-            run_quant(&mut out, &QuantCase { height: 3, width: 4, data: tr.clone(), layout: None, crop: None, k: 16, dither: false, bg, before: vec![] }, "corner");
-            run_quant(&mut out, &QuantCase { height: 3, width: 4, data: tr.clone(), layout: None, crop: Some((0, 3, 1, 3)), k: 4, dither: true, bg, before: vec![] }, "corner");
+            run_quant(&mut out, &QuantCase { height: 3, width: 4, data: tr.clone(), layout: None, crop: None, k: 16, dither: false, bg, before: vec![], before_same: vec![] }, "corner");
+            run_quant(&mut out, &QuantCase { height: 3, width: 4, data: tr.clone(), layout: None, crop: Some((0, 3, 1, 3)), k: 4, dither: true, bg, before: vec![], before_same: vec![] }, "corner");
         }
         // almost opaque / almost transparent pixels whose composited colour is 1 unit away from a colour
         // that is itself in the image: compositing in `from_image` and in `quantize` must agree
@@ -1127,7 +1148,7 @@ fn main() {
                         let dset: BTreeSet<Rgb> = data.iter().map(|c| composite(bgr, *c)).collect();
                         for dither in [false, true] {
                             for k in [dset.len(), dset.len() + 3] {
-                                run_quant(&mut out, &QuantCase { height: 2, width: 4, data: data.clone(), layout: None, crop: None, k, dither, bg: Some(bgr), before: vec![] }, "alpha-edge");
+                                run_quant(&mut out, &QuantCase { height: 2, width: 4, data: data.clone(), layout: None, crop: None, k, dither, bg: Some(bgr), before: vec![], before_same: vec![] }, "alpha-edge");
                             }
                         }
                         made += 1;
@@ -1142,17 +1163,17 @@ fn main() {
         // around the subsampling threshold h*w/(100k) = 2 with k = 1: 199, 200, 201 pixels
         for n in [199usize, 200, 201, 399, 400] {
             let data = gen_image(&mut rng, 1, n, 5, false);
-            run_quant(&mut out, &QuantCase { height: 1, width: n, data: data.clone(), layout: None, crop: None, k: 1, dither: false, bg: None, before: vec![] }, "corner");
-            run_quant(&mut out, &QuantCase { height: n, width: 1, data, layout: None, crop: None, k: 5, dither: true, bg: None, before: vec![] }, "corner");
+            run_quant(&mut out, &QuantCase { height: 1, width: n, data: data.clone(), layout: None, crop: None, k: 1, dither: false, bg: None, before: vec![], before_same: vec![] }, "corner");
+            run_quant(&mut out, &QuantCase { height: n, width: 1, data, layout: None, crop: None, k: 5, dither: true, bg: None, before: vec![], before_same: vec![] }, "corner");
         }
         // huge requests: `palette_size * 100` must not overflow (2^62 * 100 wraps to 0)
         for k in [usize::MAX, 1usize << 62, 184467440737095517, 184467440737095516, (1usize << 63) + 1] {
             let data = gen_image(&mut rng, 3, 5, 11, false);
-            run_quant(&mut out, &QuantCase { height: 3, width: 5, data, layout: None, crop: None, k, dither: k % 2 == 0, bg: None, before: vec![] }, "corner");
+            run_quant(&mut out, &QuantCase { height: 3, width: 5, data, layout: None, crop: None, k, dither: k % 2 == 0, bg: None, before: vec![], before_same: vec![] }, "corner");
         }
         // empty image: quantize answers None (outside the property, correspondence only)
-        run_quant(&mut out, &QuantCase { height: 0, width: 3, data: vec![], layout: None, crop: None, k: 4, dither: false, bg: None, before: vec![] }, "corner");
-        run_quant(&mut out, &QuantCase { height: 3, width: 0, data: vec![], layout: None, crop: None, k: 4, dither: true, bg: None, before: vec![] }, "corner");
+        run_quant(&mut out, &QuantCase { height: 0, width: 3, data: vec![], layout: None, crop: None, k: 4, dither: false, bg: None, before: vec![], before_same: vec![] }, "corner");
+        run_quant(&mut out, &QuantCase { height: 3, width: 0, data: vec![], layout: None, crop: None, k: 4, dither: true, bg: None, before: vec![], before_same: vec![] }, "corner");
     }
 
     // ---- storage layouts: the same 3×4 / 2×5 picture dense, transposed, padded, strided, and cropped on top
@@ -1161,7 +1182,7 @@ fn main() {
         for lk in 0..5u64 {
             for (crop, k) in [(None, 12usize), (None, 5), (Some((1usize, 3usize, 1usize, 4usize)), 6), (Some((0, 3, 2, 3)), 3)] {
                 for dither in [false, true] {
-                    let base = QuantCase { height: 3, width: 4, data: opaque(&pic), layout: None, crop, k, dither, bg: None, before: vec![] };
+                    let base = QuantCase { height: 3, width: 4, data: opaque(&pic), layout: None, crop, k, dither, bg: None, before: vec![], before_same: vec![] };
                     run_quant(&mut out, &base.relayout(&mut rng, lk), "layout");
                 }
             }
@@ -1174,7 +1195,7 @@ fn main() {
         let (h0, w0) = (rng.range(2, 12) as usize, rng.range(2, 16) as usize);
         let nc0 = 60 + rng.below(200) as usize;
         let first = QuantCase { height: h0, width: w0, data: gen_image(&mut rng, h0, w0, nc0, false),
-                                layout: None, crop: None, k: rng.range(1, 6) as usize, dither: true, bg: None, before: vec![] };
+                                layout: None, crop: None, k: rng.range(1, 6) as usize, dither: true, bg: None, before: vec![], before_same: vec![] };
         let mut seq = vec![first];
         for j in 0..(1 + rng.below(2)) {
             let w1 = match (i as u64 + j) % 3 {
@@ -1200,11 +1221,45 @@ fn main() {
             }
             let data: Vec<RGBA> = (0..h1 * w1).map(|_| *rng.pick(&cols)).collect();
             let case = QuantCase { height: h1, width: w1, data, layout: None, crop: None, k: d + rng.below(3) as usize,
-                                   dither: !rng.chance(1, 5), bg: None, before: seq.clone() };
+                                   dither: !rng.chance(1, 5), bg: None, before: seq.clone(), before_same: vec![] };
             run_quant(&mut out, &case, "sequence");
             let mut plain = case.clone();
             plain.before = vec![];
             seq.push(plain);
+        }
+    }
+
+    // ---- the same image value quantised repeatedly on one thread, ONE parameter varied per step (background,
+    //      dither flag, palette size); the object itself, a clone, an identical crop; translucent pixels so
+    //      that the background matters; colours fit, so every call must reproduce the picture
+    let bgs = [None, Some(RGBA::new(255, 255, 255, 255)), Some(RGBA::new(200, 30, 90, 255)), Some(RGBA::new(0, 90, 255, 255))];
+    for i in 0..12 * scale {
+        let (hh, ww) = (rng.range(1, 7) as usize, rng.range(2, 8) as usize);
+        let nc = rng.range(2, 7) as usize;
+        let mut data = gen_image(&mut rng, hh, ww, nc, true);
+        data[0] = RGBA::new(data[0].to_rgba()[0], data[0].to_rgba()[1], data[0].to_rgba()[2], *rng.pick(&[40u8, 128, 200]));
+        let crop = if rng.chance(1, 3) && hh > 1 { Some((0, hh - 1, 0, ww)) } else { None };
+        let lk = if rng.chance(2, 3) { 0 } else { 1 + rng.below(4) };
+        let k0 = 2 * nc + 6;
+        let mut params: Vec<(usize, bool, Option<RGBA>)> = vec![(k0, rng.chance(1, 2), *rng.pick(&bgs))];
+        for _ in 0..(1 + rng.below(3)) {
+            let (k, d, b) = *params.last().unwrap();
+            let next = match rng.below(4) {
+                0 | 1 => (k, d, *rng.pick(&bgs)),
+                2 => (k, !d, b),
+                _ => (if k == k0 { k0 + 1 + rng.below(4) as usize } else { k0 }, d, b),
+            };
+            params.push(next);
+        }
+        let base = QuantCase { height: hh, width: ww, data, layout: None, crop, k: k0, dither: false, bg: None, before: vec![], before_same: vec![] }
+            .relayout(&mut rng, lk);
+        let mut earlier: Vec<(usize, bool, Option<RGBA>, u8)> = Vec::new();
+        for (k, d, b) in params {
+            let mut case = base.clone();
+            (case.k, case.dither, case.bg) = (k, d, b);
+            case.before_same = earlier.clone();
+            run_quant(&mut out, &case, "same-image");
+            earlier.push((k, d, b, ((i as u64 + rng.below(3)) % 3) as u8));
         }
     }
 
